@@ -151,8 +151,11 @@ func genLen(r *simrt.RNG) int {
 		return r.Range(2, 120)
 	case x < 80:
 		return r.Pick(r.Range(4093, 4097), r.Range(4090, 4100), r.Range(8189, 8193), r.Range(8186, 8198), r.Range(12285, 12289), 16384, 16385)
-	case x < 88:
+	case x < 84:
 		return r.Range(200, 3000)
+	case x < 88:
+		// powers of two and their neighbours: favourite batch and buffer sizes
+		return r.Pick(64, 128, 256, 512, 1024, 2048) + r.Pick(-1, 0, 0, 0, 1)
 	case x < 95:
 		return r.Range(8190, 8300)
 	}
